@@ -217,3 +217,105 @@ class EngineModel:
                     return v.value
                 raise AnalysisError('unrecognised construct: version gate argument %s' % U(v))
         return None
+
+
+def pure_memo_fields(m):
+    """Engine fields that are *pure memo tables*: a dict created empty in __init__ whose only uses are F.get(K) / F[K] / K in F /
+    F[K] = V, where - in the method that stores - both the key K and the stored value V are computed from the method's own
+    parameters only (no engine field, no call on self), and V is computed from nothing K is not computed from.  Reading such
+    a table gives what recomputing would give, so the table carries no request-dependent state from one request to the next.
+    -> {field: reason-text};  fields that look like tables but fail a condition are returned in the second dict with the reason."""
+    from .cfg import CFG
+    from .dataflow import ReachingDefs, node_of_expr
+    init = m.methods.get('__init__')
+    cands = {}
+    if init is None:
+        return {}, {}
+    for n in walk_local(init):
+        if isinstance(n, ast.Assign) and len(n.targets) == 1 and is_self_attr(n.targets[0]):
+            v = n.value
+            if (isinstance(v, ast.Dict) and not v.keys) or (isinstance(v, ast.Call) and call_name(v) == 'dict' and not v.args and not v.keywords):
+                cands[n.targets[0].attr] = n
+    good, bad = {}, {}
+    for f in sorted(cands):
+        why = None
+        stores = []
+        for name, fn in m.methods.items():
+            for n in walk_local(fn):
+                if not is_self_attr(n, f):
+                    continue
+                if name == '__init__' and n is cands[f].targets[0]:
+                    continue
+                p = getattr(n, '_parent', None)
+                if isinstance(n.ctx, (ast.Store, ast.Del)):
+                    why = 'rebound in %s' % name
+                elif isinstance(p, ast.Subscript) and p.value is n:
+                    if isinstance(p.ctx, ast.Store):
+                        stores.append((name, fn, p))
+                    elif isinstance(p.ctx, ast.Del):
+                        why = 'entries deleted in %s' % name
+                elif isinstance(p, ast.Attribute) and p.attr == 'get' and isinstance(getattr(p, '_parent', None), ast.Call):
+                    pass
+                elif isinstance(p, ast.Compare) and n in p.comparators and all(isinstance(o, (ast.In, ast.NotIn)) for o in p.ops):
+                    pass
+                else:
+                    why = 'used otherwise in %s (%s)' % (name, U(p)[:60])
+        if why is None and not stores:
+            continue        # never filled: not a memo table, an ordinary (constant) field
+        for name, fn, sub in stores:
+            if why:
+                break
+            g = CFG(fn)
+            rd = ReachingDefs(g)
+            node = node_of_expr(g, sub)
+            asg = sub._parent
+            if node is None or not isinstance(asg, ast.Assign):
+                why = 'store shape in %s' % name
+                break
+            a = fn.args
+            ps = {x.arg for x in a.posonlyargs + a.args + a.kwonlyargs} - {'self'}
+
+            def inputs(e, at, depth=0, seen=None):
+                """parameters an expression is computed from; None when it reads engine state or anything unresolved"""
+                seen = seen if seen is not None else set()
+                out = set()
+                for x in ast.walk(e):
+                    if isinstance(x, ast.Name) and isinstance(x.ctx, ast.Load):
+                        if x.id == 'self':
+                            return None
+                        if x.id in ps:
+                            ds = rd.reaching(at, x.id)
+                            if all(d[2] is None for d in ds):
+                                out.add(x.id)
+                                continue
+                        ds = rd.reaching(at, x.id)
+                        if not ds:
+                            continue      # a module-level name (class, function, module)
+                        for var, val, dn in ds:
+                            if dn is None:
+                                out.add(x.id)
+                                continue
+                            if not isinstance(val, ast.AST) or depth > 6:
+                                return None
+                            if isinstance(val, ast.Call) and isinstance(val.func, ast.Attribute) and val.func.attr == 'get' and is_self_attr(val.func.value, f):
+                                continue      # the table's own entry: equal to the value stored for this key (checked for every store)
+                            k = (id(dn), x.id)
+                            if k in seen:
+                                continue
+                            seen.add(k)
+                            sub_ = inputs(val, dn, depth + 1, seen)
+                            if sub_ is None:
+                                return None
+                            out |= sub_
+                return out
+            ki = inputs(sub.slice, node)
+            vi = inputs(asg.value, node)
+            if ki is None or vi is None:
+                why = 'key or stored value in %s depends on engine state' % name
+            elif not vi <= ki:
+                why = 'the value stored in %s depends on %s, which the key does not cover' % (name, sorted(vi - ki))
+        if why:
+            bad[f] = why
+        else:
+            good[f] = 'filled in %s with a value computed from the key\'s inputs only' % ', '.join(sorted(set(s_[0] for s_ in stores)))
+    return good, bad
